@@ -1,2 +1,2 @@
 (* Model/All.v — re-exports every model file (one line per area); Extract.v imports only this. *)
-From BddVerif Require Export Model.Bdd Model.Apply Model.Ops Model.Count Model.ApplyFast Model.Select Model.Paths Model.Rename Model.Valuation Model.Expr Model.VarSet Model.Dot Model.Serial Model.ApplyStack Model.Restrict Model.Apply3 Model.Nested Model.CountFast Model.Substitute.
+From BddVerif Require Export Model.Bdd Model.Apply Model.Ops Model.Count Model.ApplyFast Model.Select Model.Paths Model.Rename Model.Valuation Model.Expr Model.VarSet Model.Dot Model.Serial Model.ApplyStack Model.Restrict Model.Apply3 Model.Nested Model.CountFast Model.Substitute Model.Dnf.
